@@ -225,6 +225,72 @@ def history_strategy(tier):
     return c01.history_strategy(tier, interrupts=True)
 
 
+def idle_cleanup_cases(tier, seed):
+    """a pool that holds two idle connections (two requests were in flight together earlier); a call fails with an ordinary
+    error and an interruption strikes in a close() made while that call is cleaned up - whichever connection is being
+    closed: the slot of the failed call comes back, the next two requests in flight together both get a connection"""
+    firsts = [{"kind": "recv", "nth": 0, "what": "reset"}, {"kind": "recv", "nth": 0, "what": "eof"}, {"kind": "recv", "nth": 0, "what": "timeout"},
+              {"kind": "sendall", "nth": 0, "what": "pipe", "delivered": "none"}, {"kind": "sendall", "nth": 0, "what": "reset", "delivered": "first"},
+              {"reply": 0, "tamper": "garbage"}, {"reply": 0, "tamper": "trunc", "at": 3, "then": "eof"}]
+    opsl = [{"op": "get", "key": "t"}, {"op": "set", "key": "k", "value": b"v", "noreply": False}, {"op": "get_many", "keys": ["t", "n"]},
+            {"op": "incr", "key": "n", "delta": 1, "noreply": False}]
+    for mx in (2, 3, None):
+        for r in opsl:
+            for f1 in firsts:
+                for what in faultlab.INTERRUPTS:
+                    for nth in (0, 1, 2):
+                        for ie in ((False, True) if r["op"] in faultlab.READ_OPS else (False,)):
+                            yield {"max_pool_size": mx, "op": r, "first": f1, "what": what, "nth": nth, "ignore_exc": ie}
+
+
+def check_idle_cleanup(case):
+    from props import c09
+    from vlib.harness import Env, virtual_time
+    from vlib import ops
+    env = Env()
+    net = env.net
+    faultlab.preload(env.server, b"")
+    sd = c09.ReentrantSerde("deserialize", "get", False)
+    desc = "%r under %r, then %s in close() number %d of the call; PooledClient(max_pool_size=%r, ignore_exc=%r) holding two idle connections" % (
+        case["op"], case["first"], case["what"], case["nth"], case["max_pool_size"], case["ignore_exc"])
+    with virtual_time(env.clock):
+        c = env.client("pooled", max_pool_size=case["max_pool_size"], serde=sd, ignore_exc=case["ignore_exc"], default_noreply=False)
+        pool = c.client_pool
+        env.call(c.get, "warm")
+        sd.client = c
+        w = env.call(ops.invoke, c, {"op": "get", "key": "t"})          # a get whose deserialize() runs a get: two connections
+        sd.client = None
+        del sd.inner_results[:]
+        if w != ("ok", b"text") or len(net.open_sockets()) != 2 or len(pool.used):
+            raise Violation(["idle-clean-up", "warm-up"], "the fault-free nested warm-up gave %r with %d open socket(s), %d checked out: %s" % (c01._short(w), len(net.open_sockets()), len(pool.used), desc))
+        ncall = env.ncalls
+        net.plan([dict(case["first"], call=ncall), {"kind": "close", "nth": case["nth"], "what": case["what"], "call": ncall}])
+        out = env.call(ops.invoke, c, case["op"])
+        fired = [x for x in net.fired if x["fault"].get("call") == ncall]
+        hit = [x for x in fired if x["fault"].get("what") in EXC]
+        where = "%s (outcome %r)" % (desc, c01._short(out))
+        if hit and not (out[0] == "exc" and type(out[1]) is EXC[hit[0]["fault"]["what"]]):
+            raise Violation(["idle-clean-up", "interruption-swallowed"], "%s raised inside close() did not reach the caller: %s" % (hit[0]["fault"]["what"], where))
+        if len(pool.used):
+            raise Violation(["idle-clean-up", "slot-lost"], "%d pooled connection(s) still checked out after %s" % (len(pool.used), where))
+        for name, at, detail in net.flags:
+            if name in ("io-on-closed-socket", "cross-call-read", "unread-reply-on-open-connection"):
+                raise Violation(["idle-clean-up", name], "%s (%r): %s" % (name, detail, where))
+        # two requests in flight together again: both need a slot, each gets the answer to its own command
+        sd.client = c
+        a = env.call(ops.invoke, c, {"op": "get", "key": "t"})
+        inner = list(sd.inner_results)
+        sd.client = None
+        if a != ("ok", b"text") or inner != [("ok", b"text")]:
+            raise Violation(["idle-clean-up", "follow-up"], "afterwards a get nested in a get gave %r / %r: %s" % (c01._short(a), [c01._short(x) for x in inner], where))
+        if len(pool.used):
+            raise Violation(["idle-clean-up", "slot-lost"], "%d pooled connection(s) checked out after the follow-up: %s" % (len(pool.used), where))
+        c.close()
+        if [x for x in net.open_sockets() if x.connected]:
+            raise Violation(["idle-clean-up", "leak-after-close"], "sockets still open after close(): %s" % where)
+    return bool(hit), ["idle-clean-up", "max=%s" % case["max_pool_size"], case["op"]["op"], "interrupted" if hit else "close-not-reached", "first-fired" if len(fired) - len(hit) else "first-not-fired"]
+
+
 PARTS = [
     Part("interruption-sweep", "enum", check, cases=sweep_cases, exhaustive=True),
     Part("unix-socket-interruptions", "enum", check, cases=unix_sweep_cases, exhaustive=True),
@@ -232,6 +298,7 @@ PARTS = [
     Part("idle-expiry-interruptions", "enum", check, cases=idle_sweep_cases, exhaustive=True),
     Part("input-error-then-interruption", "enum", check, cases=error_then_interrupt_cases, exhaustive=True),
     Part("interrupted-clean-up", "enum", check, cases=interrupted_cleanup_cases, exhaustive=True),
+    Part("interrupted-clean-up-with-idle-connections", "enum", check_idle_cleanup, cases=idle_cleanup_cases, exhaustive=True),
     Part("reconfigured-at-run-time", "enum", check, cases=reconfigured_sweep_cases, exhaustive=True),
     Part("re-entrant-interruptions", "enum", check_reentrant, cases=reentrant_cases, exhaustive=True),
     Part("random-histories", "hyp", check, strategy=history_strategy,
